@@ -43,9 +43,12 @@ Ops(j) == <<
   <<Loop(<<Set("n", 97, 10 * j + 7)>>)>>,                                 \* overwrite while iterating
   <<Loop(<<SCall(ECallB("del", <<M, KV>>)), SAsg(EIdx(M, KV), ENum(I(10 * j + 8)))>>)>>,  \* delete and re-insert current
   <<Loop(<<Del("n", 98), Set("n", 98, 10 * j + 9)>>)>>,                   \* delete and re-insert a fixed key
-  <<Loop(<<SIf(<<EBin("==", KV, EStr(Key(98)))>>, <<<<SBrk>>>>, <<>>)>>)>>                 \* leave the loop early
+  <<Loop(<<SIf(<<EBin("==", KV, EStr(Key(98)))>>, <<<<SBrk>>>>, <<>>)>>)>>,                \* leave the loop early
+  <<Loop(<<Del("m", 99), Set("n", 100, 10 * j + 1)>>)>>,                                    \* delete a later key and add a new one
+  <<Loop(<<Del("n", 98), Del("m", 99), Set("m", 100, 10 * j + 2), Set("n", 101, 10 * j + 3)>>)>>,  \* two out, two in
+  <<Loop(<<SCall(ECallB("del", <<M, KV>>)), Set("m", 100, 10 * j + 4)>>)>>                 \* drain while refilling
 >>
-NOps == 23
+NOps == 26
 
 Inits == << <<SDecl("m", TM)>>,
             <<SInfer("m", EMap(<<Key(97), Key(98)>>, <<ENum(I(1)), ENum(I(2))>>))>>,
@@ -58,8 +61,24 @@ HistStmts(h, len, j) == IF j > len THEN <<>>
 
 Prog(init, len, h) == Program(Inits[init] \o <<SInfer("n", M), Obs>> \o HistStmts(h, len, 1), <<>>, <<>>)
 
+\* the same literal evaluated several times (loop body, function body) gives independent maps
+LitKeys(n) == SubSeq(<<Key(97), Key(98), Key(99), Key(100), Key(101), Key(102)>>, 1, n)
+LitN(n) == EMap(LitKeys(n), [i \in 1..n |-> ENum(I(i))])
+TV == EVar("t", TM)
+LitTwiceLoop(n, op) ==
+  Program(<<SFor("i", "num", <<ENum(I(3))>>, <<SInfer("t", LitN(n))>> \o op \o <<Pr(<<EVar("i", T_num), TV, ECallB("len", <<TV>>), ECallB("has", <<TV, EStr(Key(97))>>), EBin("==", TV, LitN(n))>>)>>)>>, <<>>, <<>>)
+LitTwiceFunc(n, op) ==
+  LET mk == FuncDef("mk", <<>>, <<>>, TM, <<SInfer("t", LitN(n))>> \o op \o <<SRetV(TV, TM)>>)
+      sg == FSig(mk)
+  IN [Program(<<SInfer("p", ECallU("mk", sg, <<>>)), SInfer("q", ECallU("mk", sg, <<>>)), SAsg(EDot(EVar("p", TM), Key(122)), ENum(I(9))),
+                SInfer("r", ECallU("mk", sg, <<>>)), Pr(<<EVar("p", TM), EVar("q", TM), EVar("r", TM)>>)>>, <<mk>>, <<>>) EXCEPT !.fl = TRUE]
+LitOps == { <<SCall(ECallB("del", <<TV, EStr(Key(97))>>))>>, <<SCall(ECallB("del", <<TV, EStr(Key(98))>>))>>,
+            <<SAsg(EDot(TV, Key(120)), ENum(I(7)))>>, <<SAsg(EDot(TV, Key(120)), ENum(I(7))), SCall(ECallB("del", <<TV, EStr(Key(98))>>))>>, <<>> }
+LitTwice == UNION {{LitTwiceLoop(n, op), LitTwiceFunc(n, op)} : n \in {2, 3, 5, 6}, op \in LitOps}
+
 Exh == UNION {{<<len, h>> : h \in 0..(NOps ^ len - 1)} : len \in 1..ExhLen}
 Smp == {<<c \div 200000000, c % 200000000>> : c \in Sample}
 FamCases == {MkCase("FamMap", "hist", Prog(init, p[1], p[2])) : init \in 1..3, p \in Exh \cup Smp}
+            \cup {MkCase("FamMap", "literal-twice", p) : p \in LitTwice}
 FamInit == InitWith(FamCases)
 =============================================================================
